@@ -221,10 +221,12 @@ pub fn check(hdr: &str, lines: &[String], trace: &[(String, String, Vec<String>)
                         }
                     }
                     None => {
-                        // keep-alive: ends with any frame reaching the master, its (re-armed) timeout, or the loss of its association
+                        // keep-alive: ends with any frame reaching the master, its response timeout (counted from the request,
+                        // never re-armed), or the loss of its association
                         let by_frame = frag_for_link.as_ref().map(|f| f.link_ok() && session_up).unwrap_or(false)
                             || (kind == "rxlink" && ws[2] == "1" && matches!(ws[3], "11" | "73") && ws[1].parse::<u16>().map(|s| s < 0xFFF0).unwrap_or(false));
-                        let by_time = assocs.get(&la).map(|am| now - armed >= am.cfg.rto).unwrap_or(true);
+                        let _ = armed;
+                        let by_time = assocs.get(&la).map(|am| now - t0 >= am.cfg.rto).unwrap_or(true);
                         if by_frame || by_time {
                             link_active = None;
                         }
@@ -244,7 +246,10 @@ pub fn check(hdr: &str, lines: &[String], trace: &[(String, String, Vec<String>)
         let mut forbid_success = false;
         let mut activity_addr: Option<u16> = None;
         let mut skip_c15 = false;
-        let mut heard_other: Option<u16> = None;
+        // where the D25 defect would credit the link activity of this op (the destination of the outstanding non-READ request)
+        let mut d25_addr: Option<u16> = None;
+        // an unsolicited fragment with unparsable objects was confirmed (reported with its own cause)
+        let mut unparsable_confirmed = false;
 
         if let Some(f) = &frag {
             let reaches = f.link_ok() && session_up;
@@ -269,6 +274,17 @@ pub fn check(hdr: &str, lines: &[String], trace: &[(String, String, Vec<String>)
                             if outs.iter().any(|o| o.starts_with(&format!("info {src} unsol")) || o.contains(" begin unsol ")) || confirms.iter().any(|c| c.1[0] & 0x10 != 0) {
                                 fail(mon, hdr, "unsolicited_gated", "", &format!("op {k}: unsolicited data before the integrity poll completed: {}", outs.join(" | ")));
                             }
+                        } else if !f.objs().is_empty() && decode_objects(f.objs()).is_none() {
+                            // objects that do not parse: nothing can reach the handler, so the fragment is not accepted:
+                            // no delivery (expect_deliveries stays empty), no duplicate bookkeeping, and above all no confirm
+                            stats.hit("part_unsol_unparsable");
+                            if confirms.iter().any(|c| c.0 == src && c.1[0] & 0x10 != 0) {
+                                unparsable_confirmed = true;
+                                fail(mon, hdr, "confirmed_contents_delivered", "D23", &format!("op {k}: unsolicited fragment with unparsable objects is confirmed but not delivered: {}", hex(&f.bytes)));
+                            }
+                            if outs.iter().any(|o| o.starts_with(&format!("info {src} unsol"))) && !unparsable_confirmed {
+                                fail(mon, hdr, "duplicate_unsolicited", "", &format!("op {k}: ignored unsolicited fragment reported to the application: {}", outs.join(" | ")));
+                            }
                         } else {
                             let dup = am.last_unsol.as_ref() == Some(&f.bytes);
                             stats.hit(if dup { "part_unsol_duplicate" } else if f.objs().is_empty() { "part_unsol_null" } else { "part_unsol_data" });
@@ -288,17 +304,11 @@ pub fn check(hdr: &str, lines: &[String], trace: &[(String, String, Vec<String>)
                             }
                             if f.con() {
                                 expect_confirm = Some((src, 0xD0 | f.seq()));
-                                if !dup && !f.objs().is_empty() && decode_objects(f.objs()).is_none() {
-                                    fail(mon, hdr, "confirmed_contents_delivered", "D23", &format!("op {k}: unsolicited fragment with unparsable objects is confirmed but not delivered: {}", hex(&f.bytes)));
-                                }
                             }
                         }
-                        match &active {
-                            Some(act) if !act.is_read => {
-                                activity_addr = Some(act.addr);
-                                heard_other = Some(src).filter(|s| *s != act.addr);
-                            }
-                            _ => activity_addr = Some(src),
+                        activity_addr = Some(src);
+                        if let Some(act) = &active {
+                            if !act.is_read { d25_addr = Some(act.addr); }
                         }
                     }
                 }
@@ -346,8 +356,8 @@ pub fn check(hdr: &str, lines: &[String], trace: &[(String, String, Vec<String>)
                                 }
                             }
                         } else {
-                            activity_addr = Some(act.addr);
-                            heard_other = Some(f.src).filter(|s| *s != act.addr);
+                            activity_addr = Some(f.src);
+                            d25_addr = Some(act.addr);
                             let matches = f.src == act.addr && Some(f.seq()) == act.req_seq;
                             if !matches {
                                 forbid_success = true;
@@ -686,7 +696,7 @@ pub fn check(hdr: &str, lines: &[String], trace: &[(String, String, Vec<String>)
                 }
             }
             None => {
-                if !confirms.is_empty() {
+                if !confirms.is_empty() && !unparsable_confirmed {
                     fail(mon, hdr, "confirm_exactly_when", "", &format!("op {k}: confirm sent for a fragment that was not accepted or did not ask for it: {}", outs.join(" | ")));
                 }
             }
@@ -737,8 +747,8 @@ pub fn check(hdr: &str, lines: &[String], trace: &[(String, String, Vec<String>)
                     // keep-alive: only after the configured silence, and never ahead of user requests
                     stats.hit("part_keepalive");
                     match am.cfg.ka {
-                        Some(ka) if now >= am.last_activity + ka && am.misattributed.map(|t| now >= t + ka).unwrap_or(true) => {}
-                        Some(ka) if now >= am.last_activity + ka => fail(mon, hdr, "keepalive_after_silence", "D25", &format!("op {k}: keep-alive to {dst} at {now} although a fragment from {dst} was received at {:?} (keep-alive {ka}): it was credited to the association of the outstanding request", am.misattributed)),
+                        Some(ka) if now >= am.last_activity + ka => {}
+                        Some(ka) if now >= am.last_activity_d25 + ka => fail(mon, hdr, "keepalive_after_silence", "D25", &format!("op {k}: keep-alive to {dst} at {now} although a fragment from {dst} was received at {} (keep-alive {ka}): it was credited to the association of the outstanding request", am.last_activity)),
                         _ => fail(mon, hdr, "keepalive_after_silence", "", &format!("op {k}: keep-alive to {dst} at {now}, last activity {} keep-alive {:?}", am.last_activity, am.cfg.ka)),
                     }
                     if !am.tainted && !session_ended && am.pending.iter().any(|p| *p <= R_ENABLE) {
@@ -759,17 +769,16 @@ pub fn check(hdr: &str, lines: &[String], trace: &[(String, String, Vec<String>)
         for am in assocs.values_mut() {
             am.queue.retain(|q| !completes.iter().any(|c| c.0 == q.id));
         }
-        if let Some(addr) = heard_other {
-            if let Some(am) = assocs.get_mut(&addr) { am.misattributed = Some(now); }
-        }
         if let Some(addr) = activity_addr {
             if session_up || g0.iter().any(|o| o.starts_with("session ")) {
                 if let Some(am) = assocs.get_mut(&addr) { am.last_activity = now; }
+                // the same activity as the D25 defect would book it
+                if let Some(am) = assocs.get_mut(&d25_addr.unwrap_or(addr)) { am.last_activity_d25 = now; }
             }
         }
         if kind == "rxlink" && ws[2] == "1" && matches!(ws[3], "11" | "73") && session_up {
             if let Ok(src) = ws[1].parse::<u16>() {
-                if let Some(am) = assocs.get_mut(&src) { am.last_activity = now; }
+                if let Some(am) = assocs.get_mut(&src) { am.last_activity = now; am.last_activity_d25 = now; }
             }
         }
         if outs.iter().any(|o| o == "task-exit") {
